@@ -141,9 +141,17 @@ impl<'a> Writer<'a> {
     pub fn write_snapshot_delta(&mut self, delta: &[u8]) -> Result<(), WriteError> {
         self.write_chunk_impl(DataKind::SnapshotDelta, Some(delta))
     }
-    pub fn write_message(&mut self, msg: &[u8]) -> Result<(), WriteError> {
-        // The reader unpacks messages into a buffer of this size.
-        assert!(msg.len() <= MAX_SNAPSHOT_SIZE, "overlong message");
+    /// Whether a snapshot or snapshot delta of these bytes fits into a chunk.
+    pub(crate) fn fits_chunk(data: &[u8]) -> bool {
+        data.len() <= MAX_SNAPSHOT_SIZE && HUFFMAN.compressed_len(data) <= u16::MAX.usize()
+    }
+    /// Whether a message of these bytes fits into a chunk.
+    pub(crate) fn fits_message(&mut self, msg: &[u8]) -> bool {
+        msg.len() <= MAX_SNAPSHOT_SIZE
+            && self.pack_message(msg).is_ok()
+            && Self::fits_chunk(&self.buffer2)
+    }
+    fn pack_message(&mut self, msg: &[u8]) -> Result<(), buffer::CapacityError> {
         self.buffer2.clear();
         with_packer(
             &mut self.buffer2,
@@ -158,7 +166,11 @@ impl<'a> Writer<'a> {
                 Ok(())
             },
         )
-        .expect("overlong message");
+    }
+    pub fn write_message(&mut self, msg: &[u8]) -> Result<(), WriteError> {
+        // The reader unpacks messages into a buffer of this size.
+        assert!(msg.len() <= MAX_SNAPSHOT_SIZE, "overlong message");
+        self.pack_message(msg).expect("overlong message");
         self.write_chunk_impl(DataKind::Message, None)
     }
     // TODO: Add a `finalize` function that writes the demo length into the
